@@ -161,6 +161,16 @@ func runHist(r *ev.Recorder, c *histCase) (string, string) {
 		ks = append(ks, d)
 		refs = append(refs, pu.DilRef(s))
 	}
+	// the caller re-uses one message buffer and one public-key array, overwriting them in place between calls
+	maxLen := 0
+	for _, m := range c.Pool {
+		if len(m) > maxLen {
+			maxLen = len(m)
+		}
+	}
+	mbuf := make([]byte, maxLen)
+	msgIn := func(i int) []byte { copy(mbuf, c.Pool[i]); return mbuf[:len(c.Pool[i])] }
+	pkbuf := new([dilithium.CryptoPublicKeyBytes]byte)
 	want := map[[2]int][]byte{}
 	refSig := func(k, m int) []byte {
 		if s, ok := want[[2]int{k, m}]; ok {
@@ -177,7 +187,7 @@ func runHist(r *ev.Recorder, c *histCase) (string, string) {
 		r.Eval(1)
 		switch o.Op {
 		case "sign":
-			s, err := d.Sign(c.Pool[o.Msg])
+			s, err := d.Sign(msgIn(o.Msg))
 			if err != nil || !bytes.Equal(s[:], refSig(o.Key, o.Msg)) {
 				return "history/sign-differs", fmt.Sprintf("%s: signature differs from the specification (occurrence %d of this message; err=%v)", tag, seen[[2]int{o.Key, o.Msg}]+1, err)
 			}
@@ -186,7 +196,7 @@ func runHist(r *ev.Recorder, c *histCase) (string, string) {
 				r.NonTrivial("repeat", n, len(c.Ops), []byte(c.Seeds[0]), o.Key, o.Msg)
 			}
 		case "seal":
-			s, err := d.Seal(c.Pool[o.Msg])
+			s, err := d.Seal(msgIn(o.Msg))
 			if err != nil || !bytes.Equal(s, append(append([]byte{}, refSig(o.Key, o.Msg)...), c.Pool[o.Msg]...)) {
 				return "history/seal-differs", fmt.Sprintf("%s: sealed message differs from specification signature || message (err=%v)", tag, err)
 			}
@@ -204,14 +214,25 @@ func runHist(r *ev.Recorder, c *histCase) (string, string) {
 		case "verify":
 			var s [dilithium.CryptoBytes]byte
 			copy(s[:], refSig(o.Key, o.Msg))
-			pk := d.GetPK()
-			if !dilithium.Verify(c.Pool[o.Msg], s, &pk) {
+			*pkbuf = d.GetPK()
+			if !dilithium.Verify(msgIn(o.Msg), s, pkbuf) {
 				return "history/verify-false", tag + ": Verify rejects the specification signature"
 			}
+		case "verify-lookalike":
+			// a public key that differs from the signer's in ONE bit (position drawn: rho beyond its first bytes, or t1),
+			// written into the same array; it must be rejected, and must not influence what the key signs afterwards
+			var s [dilithium.CryptoBytes]byte
+			copy(s[:], refSig(o.Key, o.Msg%4))
+			*pkbuf = d.GetPK()
+			bit := 64 + (o.Msg/4*997)%(len(pkbuf)*8-64)
+			pkbuf[bit/8] ^= 1 << uint(bit%8)
+			if dilithium.Verify(msgIn(o.Msg%4), s, pkbuf) {
+				return "history/lookalike-pk-accepted", fmt.Sprintf("%s: a signature verified under a public key with bit %d flipped", tag, bit)
+			}
 		case "open":
-			pk := d.GetPK()
+			*pkbuf = d.GetPK()
 			sm := append(append([]byte{}, refSig(o.Key, o.Msg)...), c.Pool[o.Msg]...)
-			if got := dilithium.Open(sm, &pk); !bytes.Equal(got, c.Pool[o.Msg]) {
+			if got := dilithium.Open(sm, pkbuf); !bytes.Equal(got, c.Pool[o.Msg]) {
 				return "history/open-differs", tag + ": Open does not return the message"
 			}
 		case "rebuild":
@@ -227,8 +248,8 @@ func runHist(r *ev.Recorder, c *histCase) (string, string) {
 
 func TestHistories(t *testing.T) {
 	r := ev.New(t, prop, "TestHistories")
-	r.Rule("rapid histories over two key objects and a pool of 4 messages: Sign, Seal, GetPK, GetSK, Verify, Open and re-creation of a key in drawn order (repeats frequent); every Sign/Seal must return the bytes of the specification signature regardless of what ran before; non-trivial = a repeated signature of an already-signed (key,message), distinct by history")
-	checks := r.PerShard(r.Pick(180, 6000))
+	r.Rule("rapid histories over two key objects and a pool of 4 messages: Sign, Seal, GetPK, GetSK, Verify, Open, verification under a look-alike public key (one bit of rho/t1 flipped) and re-creation of a key in drawn order (repeats frequent); messages and public keys are handed over in ONE re-used buffer each, overwritten in place between calls; every Sign/Seal must return the bytes of the specification signature regardless of what ran before; non-trivial = a repeated signature of an already-signed (key,message), distinct by history")
+	checks := r.PerShard(r.Pick(480, 12000))
 	r.Rapid(t, "hist", checks, func(rt *rapid.T) {
 		c := &histCase{Seeds: []pu.HB{pu.Seed48().Draw(rt, "seed0"), pu.Seed48().Draw(rt, "seed1")}}
 		for i := 0; i < 4; i++ {
@@ -236,8 +257,12 @@ func TestHistories(t *testing.T) {
 		}
 		n := rapid.IntRange(2, 14).Draw(rt, "nops")
 		for i := 0; i < n; i++ {
-			c.Ops = append(c.Ops, hop{Op: rapid.SampledFrom([]string{"sign", "sign", "sign", "seal", "seal", "getpk", "getsk", "verify", "open", "rebuild"}).Draw(rt, "op"),
-				Key: rapid.IntRange(0, 1).Draw(rt, "key"), Msg: rapid.IntRange(0, 3).Draw(rt, "msg")})
+			h := hop{Op: rapid.SampledFrom([]string{"sign", "sign", "sign", "seal", "seal", "getpk", "getsk", "verify", "open", "rebuild", "verify-lookalike", "verify-lookalike"}).Draw(rt, "op"),
+				Key: rapid.IntRange(0, 1).Draw(rt, "key"), Msg: rapid.IntRange(0, 3).Draw(rt, "msg")}
+			if h.Op == "verify-lookalike" {
+				h.Msg += 4 * rapid.IntRange(0, 20000).Draw(rt, "bitSel")
+			}
+			c.Ops = append(c.Ops, h)
 		}
 		key, msg := runHist(r, c)
 		var brief []string
